@@ -59,8 +59,11 @@ def run(patch, tests=False, props=None, quiet=False):
                 res['error'] = 'patch does not apply: ' + p.stdout[-300:] + p.stderr[-300:]
                 return res
         if tests:
+            # reuse the dependency artefacts of /repo/target through hard links (members are rebuilt: their paths differ)
+            if os.path.isdir(os.path.join(REPO, 'target')):
+                subprocess.call(['cp', '-al', os.path.join(REPO, 'target'), os.path.join(d, 'target')])
             env = dict(os.environ, CARGO_NET_OFFLINE='true', CARGO_TARGET_DIR=os.path.join(d, 'target'))
-            t = subprocess.run(['cargo', 'test', '--offline', '-p', 'cel-interpreter', '-p', 'cel-parser', '--lib', '--features', 'json'],
+            t = subprocess.run(['cargo', 'test', '--workspace', '--no-fail-fast', '--offline', '--lib', '--bins'],
                                cwd=d, env=env, capture_output=True, text=True)
             passed = sum(int(x) for x in re.findall(r'test result: \w+\. (\d+) passed', t.stdout))
             failed = sum(int(x) for x in re.findall(r'test result: \w+\. \d+ passed; (\d+) failed', t.stdout))
